@@ -48,7 +48,7 @@ def run(ctx):
         for cap, real in [(0, 0), (100000, 1 << 22)]:
             path = os.path.join(ctx.work, "sched.ndjson")
             r = ctx.gen_to_file("Gen_Conc", ctx.cfg_variant("Gen_Conc.cfg", dict(Cap=cap)), path, workers=1,
-                                simulate="num=%d" % (1500 if thorough else 300), depth=80, extra=["-seed", seed], label="gen-sched cap=%d" % cap)
+                                simulate="num=%d" % (4000 if thorough else 300), depth=80, extra=["-seed", seed], label="gen-sched cap=%d" % cap)
             if r["emitted"] < 10:
                 raise Broken("Gen_Conc emitted no schedules")
             rep = ctx.run_replay("replay-sched", ["-in", path, "-seed", seed, "-cap", str(real)], "replay-sched", sigkeys=("kind",))
@@ -58,10 +58,15 @@ def run(ctx):
         ctx.record("record-cs", ["-rounds", "6" if thorough else "3"], tr)
         ctx.check_trace("Trace_CS", "Trace_CS.cfg", tr, "trace-cs", must_have=("CS", "Rel"), run_marker="Round")
         tr = os.path.join(ctx.work, "concexec.ndjson")
-        _race_record(ctx, race, "record-conc-exec", ["-seed", seed, "-runs", "18" if thorough else "6", "-per", "60" if thorough else "25"], tr)
+        _race_record(ctx, race, "record-conc-exec", ["-seed", seed, "-runs", "36" if thorough else "6", "-per", "80" if thorough else "25"], tr)
         ctx.check_trace("Trace_Lib", "Trace_Lib.cfg", tr, "trace-conc-exec(race build)", must_have=("Exec",))
+        # (d) the same through the gRPC service: 16 concurrent clients against a race-built server, default cache
+        updog_race = ctx.build_updog(race=True)
+        tr = os.path.join(ctx.work, "rpcconc.ndjson")
+        ctx.record("record-rpc-conc", ["-seed", seed, "-updog", updog_race, "-per", "80" if thorough else "25"], tr, timeout=1800)
+        ctx.check_trace("Trace_Lib", "Trace_Lib.cfg", tr, "trace-rpc-conc(race-built server)", must_have=("Exec",))
         tr = os.path.join(ctx.work, "lruconc.ndjson")
-        _race_record(ctx, race, "record-lru-conc", ["-seed", seed, "-runs", "20" if thorough else "6", "-rounds", "40" if thorough else "20"], tr)
+        _race_record(ctx, race, "record-lru-conc", ["-seed", seed, "-runs", "60" if thorough else "6", "-rounds", "50" if thorough else "20"], tr)
         ctx.check_trace("Trace_LRUConc", "Trace_LRUConc.cfg", tr, "trace-lru-linearisable(race build)", must_have=("Call", "Ret"), deque=True, run_marker="NewCache")
     else:
         ctx.cov["rule"] = ("UpdogConcWrite: 3 threads adding 5 tagged rows, AddRow atomic under the writer mutex: ids are a permutation of 0..n-1 and the bitmaps equal "
